@@ -18,3 +18,11 @@ Lemma gen_vector_path :
   gen_vector_null_masked = true /\ gen_vector_ne_keeps_null = true /\ gen_vector_alive_masked = true /\
   gen_vector_true_falls_back = true /\ gen_feq_tail_exact = true.
 Proof. repeat split; reflexivity. Qed.
+
+(* the ordered index key identifies -0.0 with +0.0 and all NaNs (Model.okey_cmp: compare f_key),
+   and no index path returns anything but its re-checked result (Model.select / count /
+   count_column go through filter (evaluate c) on the fetched candidates) *)
+Lemma gen_ordered_key : gen_ordered_key_identifies_zeros = true.
+Proof. reflexivity. Qed.
+Lemma gen_no_shortcut : gen_index_path_returns_only_rechecked = true.
+Proof. reflexivity. Qed.
